@@ -117,6 +117,16 @@ def main(args, tier="quick"):
         if not ok:
             fails += 1
     print("selftest: %d mutants, %d failures, %.0fs" % (len(specs), fails, time.time() - t0))
+    if not args:
+        # snapshot of the last complete run, quoted by the evidence files
+        summary = {"when": time.strftime("%Y-%m-%dT%H:%M:%SZ", time.gmtime()),
+                   "breaking_changes_reported": sum(1 for s, ok, _, _ in results if ok and not s.get("benign")),
+                   "breaking_changes_total": sum(1 for s, _, _, _ in results if not s.get("benign")),
+                   "behaviour_preserving_changes_silent": sum(1 for s, ok, _, _ in results if ok and s.get("benign")),
+                   "behaviour_preserving_changes_total": sum(1 for s, _, _, _ in results if s.get("benign")),
+                   "failures": [s["name"] for s, ok, _, _ in results if not ok]}
+        with open(os.path.join(VERIF, "selftest", "last_run.json"), "w") as f:
+            json.dump(summary, f, indent=1)
     return 1 if fails else 0
 
 
